@@ -49,6 +49,17 @@ func baseProfile(r *rand.Rand) *profile.Profile {
 		p.Sample = append(p.Sample, s)
 	}
 	if r.Intn(3) == 0 {
+		// one entry with more numeric tag values than are shown one by one (the rest is collapsed
+		// into ranges that get labels of their own)
+		for len(p.Sample) < 6+r.Intn(4) {
+			p.Sample = append(p.Sample, &profile.Sample{Value: []int64{1, int64(1 + r.Intn(9))}, Label: map[string][]string{"k": {"v"}}, NumLabel: map[string][]int64{}, NumUnit: map[string][]string{"bytes": {"bytes"}}, Location: []*profile.Location{p.Location[0]}})
+		}
+		for i, s := range p.Sample {
+			s.NumLabel = map[string][]int64{"bytes": {int64(16) << uint(i)}}
+			s.Location = append([]*profile.Location{p.Location[0]}, s.Location[1:]...)
+		}
+	}
+	if r.Intn(3) == 0 {
 		// profile-diff shape: entries whose values cancel to zero are not shown, and no edge may refer to them
 		s := p.Sample[r.Intn(len(p.Sample))]
 		neg := &profile.Sample{Location: s.Location, Label: s.Label, NumLabel: s.NumLabel, NumUnit: s.NumUnit, Value: []int64{-s.Value[0], -s.Value[1]}}
